@@ -97,7 +97,7 @@ func (c18) Gen(seed uint64, idx int, tier string) *Scenario {
 	sc.SetInt("aseed", r.Intn(1<<30))
 	// what standard input is, when it is used: a pipe, a regular file, a regular file whose
 	// offset the parent has already advanced past a header, a socket
-	sc.SetInt("stdinkind", r.Intn(4))
+	sc.SetInt("stdinkind", r.Intn(5))
 	return sc
 }
 
@@ -250,6 +250,29 @@ func runBin(dir string, args []string, stdin []byte, strace []string) procResult
 					defer f.Close()
 					defer os.Remove(fn)
 				}
+			}
+		case 4: // a pipe whose writer is slower than bcl: the program arrives in several pieces, every read comes short
+			if rd, wr, err := os.Pipe(); err == nil {
+				cmd.Stdin = rd
+				defer rd.Close()
+				go func() {
+					defer wr.Close()
+					n := len(stdin)
+					cuts := []int{n / 3, n / 3 * 2, n}
+					if n > 9000 {
+						cuts = []int{4096 + n%1000, 8192 + n%500, n}
+					}
+					off := 0
+					for _, c := range cuts {
+						if c > off {
+							if _, err := wr.Write(stdin[off:c]); err != nil {
+								return
+							}
+							off = c
+							time.Sleep(4 * time.Millisecond) // real time, but nothing is judged by it: only the pieces matter
+						}
+					}
+				}()
 			}
 		case 3: // a connected socket
 			if fds, err := syscall.Socketpair(syscall.AF_UNIX, syscall.SOCK_STREAM|syscall.SOCK_CLOEXEC, 0); err == nil {
